@@ -145,7 +145,7 @@ CHECKS["C01"] = {
 }
 
 CHECKS["C05"] = {
-    "explanation": "Same pipeline harness as C01, judged for the C05 obligations: a flush without expunge permission (FETCH/STORE/SEARCH) returns no EXPUNGE and never shrinks the view, a flush with permission empties the responder queue, and the client mirror (which rejects an EXISTS for a re-added message arriving before the EXPUNGE of its removed instance as a count/UID inconsistency) stays equal to the snapshot; at quiescence the view equals the mailbox membership.",
+    "explanation": "Same pipeline harness as C01, judged for the C05 obligations: a flush without expunge permission (FETCH/STORE/SEARCH) returns no EXPUNGE and never shrinks the view, a flush with permission empties the responder queue, and the client mirror (which rejects an EXISTS for a re-added message arriving before the EXPUNGE of its removed instance as a count/UID inconsistency) stays equal to the snapshot; at quiescence the view equals the mailbox membership. Session level (VerifC01Session, real handlers): while the observer's FETCH / STORE / SEARCH / UID FETCH / UID SEARCH is answered no EXPUNGE response reaches the response channel; if a removal is still held back afterwards the tagged OK carried [EXPUNGEISSUED]; after NOOP / CHECK / EXPUNGE no removal is left held back.",
     "harnesses": [
         {"name": "pipeline", "pkg": "internal/state", "pkgname": "state", "entry": "VerifC01Pipeline",
          "files": ["zz_verif_c01.go", "zz_verif_fixture.go"], "extra_overlay": {"internal/response/zz_verif_decode.go": "internal/response/zz_verif_decode.go"},
@@ -157,6 +157,11 @@ CHECKS["C05"] = {
          "gen_stubs": [TX_STUB],
          "params": {"quick": grid(fam=[3], n=[3], k=[3]), "thorough": grid(fam=[3], n=[3, 4], k=[4])},
          "cover": ["expunge-queued", "fetch-queued"]},
+        {"name": "session", "pkg": "internal/session", "pkgname": "session", "entry": "VerifC01Session", "files": ["zz_verif_c18.go", "zz_verif_c18b.go", "zz_verif_c01.go"],
+         "with": ["state_export", "backend_export", "verifdb"],
+         "extra_overlay": {"internal/response/zz_verif_decode.go": "internal/response/zz_verif_decode.go"},
+         "params": {"quick": grid(k=[3]), "thorough": grid(k=[4])},
+         "cover": ["held-back", "own-search"]},
     ],
     "stubs": CHECKS["C01"]["stubs"],
     "outside": ["the [EXPUNGEISSUED] response code rendering (that the handlers put the item into their OK is part of C01's session harness)", "histories longer than k"],
